@@ -1,6 +1,6 @@
 From Coq Require Import ZArith List String Bool.
 From FV Require Import Base.Ser Base.Res C02.Model C02.ModelGlyf.
-From FV Require C02.ModelCmap C02.ModelComponent C02.ModelKern.
+From FV Require C02.ModelCmap C02.ModelComponent C02.ModelKern C02.ModelCmap6.
 Import ListNotations.
 Open Scope string_scope.
 Definition cmap12_compile_t (hdr : Z * Z * Z * Z) (m : list (Z * Z)) : Res (list Z) :=
@@ -29,6 +29,8 @@ Definition reg : registry := [
   ("component_compile", run3 ModelComponent.compile);
   ("component_decompile", run1 ModelComponent.decompile);
   ("kern0_compile", run4 ModelKern.kern0_compile);
-  ("kern0_decompile", run2 ModelKern.kern0_decompile)
+  ("kern0_decompile", run2 ModelKern.kern0_decompile);
+  ("cmap6_compile", run2 ModelCmap6.cmap6_compile);
+  ("cmap6_decompile", run1 ModelCmap6.cmap6_decompile)
 ].
 Definition fv_entry := dispatch reg.
